@@ -24,7 +24,13 @@ pub(super) fn extract_atomic(
     let output = ctx.determine_select_columns(&pipeline);
     let output = ctx.positional_mapping.apply_active_mapping(output);
 
+    #[cfg(feature = "verif")]
+    let verif_before = pipeline.clone();
+
     let (preceding, atomic) = split_off_back(pipeline, output.clone(), ctx);
+
+    #[cfg(feature = "verif")]
+    crate::sql::verif_hooks::trace_split(ctx, &verif_before, &output, preceding.as_deref(), &atomic);
 
     let atomic = if let Some(preceding) = preceding {
         log::debug!(
@@ -35,6 +41,9 @@ pub(super) fn extract_atomic(
     } else {
         atomic
     };
+
+    #[cfg(feature = "verif")]
+    crate::sql::verif_hooks::trace_anchored(ctx, &atomic);
 
     // sometimes, additional columns will be added into select, because they are needed for
     // other clauses. To filter them out, we use an additional limiting SELECT.
